@@ -30,7 +30,10 @@ relative paths from the working directory differ only in leading '.' and '/' cha
 same st_mtime_ns; the dependency is named by --include-uninstalled spellings or found through a
 relative include directory; a random history of scans (which file is cached first varies) runs
 from that directory with the real CacheStore and every scan must give the bytes of the cold scan
-of the same configuration.
+of the same configuration.  A second family (gen_relcwd) runs the scans of one history from SEVERAL
+working directories: one relative spelling names a different build of the dependency from each
+of them (two projects built one after the other; repaired by /repo 382125e, which keys the cache
+entries on the absolute path).  Hand-picked histories in corpus/C16/relcache/*.json run first.
 
 Whole-declaration shuffles: judged byte for byte when every typedef name is still declared before
 its uses ('decls'; struct tags may be used before their definition, the typedefs of one tag keep
@@ -2454,7 +2457,10 @@ def run(ctx):
                 'by --include-uninstalled spellings or found through a relative include directory as the include of an '
                 'include; the scans of a random history (which file is cached first varies) run from that working '
                 'directory with the real CacheStore, each compared byte for byte with the cold scan of the same '
-                'configuration. non-trivial = more than 3 declarations / more than one element; distinct by content hash.'
+                'configuration; plus histories whose scans run from 2-3 different working directories, where ONE relative '
+                'spelling (x, ../x, s/x, ../s/x, or a relative include directory) names a different build of the dependency '
+                'from each directory (same st_mtime_ns in 3 of 4), followed by scans naming any of the builds by its relative '
+                'path from any of the directories; hand-picked histories of corpus/C16/relcache run first. non-trivial = more than 3 declarations / more than one element; distinct by content hash.'
                 % (len(seeds), nperm),
         'samples': samples,
         'distribution': cnt.counts,
